@@ -96,7 +96,9 @@ Tick == /\ now < MaxT /\ now' = now + 1 /\ got' = [k |-> "none"]
         /\ UNCHANGED <<height, view, s, d, tt, ch, gen, lastH, lastV, ops>>
         /\ Log([k |-> "Sleep", d |-> 1, at |-> now])
 
-Next == \/ \E dd \in Durs : \E hv \in {<<gen + 1, 0>>} : Reset(hv[1], hv[2], dd)
+\* a Reset names a new epoch or - as the library does whenever it re-arms the timer inside a view - the SAME height and view again
+Epochs == IF gen = 0 THEN {<<1, 0>>} ELSE {<<height, view>>, <<height + 1, 0>>}
+Next == \/ \E dd \in Durs : \E hv \in Epochs : Reset(hv[1], hv[2], dd)
         \/ \E e \in Exts : Extend(e)
         \/ Read \/ Fire \/ Tick
 Spec == Init /\ [][Next]_vars
